@@ -184,6 +184,163 @@ func execDecode(w []string, hx func(int) []byte) (string, bool) {
 		t := time.Unix(ps, pn)
 		err := gocql.Unmarshal(gocql.NewNativeType(4, typ, ""), data, &t)
 		return fmt.Sprintf("%s %d.%d", stat(err), t.Unix(), t.Nanosecond()), true
+	case "ucqln":
+		// nullable destinations **T: null → nil pointer; else a FRESH value is allocated and decoded into; what the
+		// pointer pointed to before must stay as it was
+		typ := gocql.TypeUUID
+		switch w[1] {
+		case "uuid":
+		case "timeuuid":
+			typ = gocql.TypeTimeUUID
+		default:
+			panic("bad-op: column type")
+		}
+		info := gocql.NewNativeType(4, typ, "")
+		var data []byte
+		if w[4] != "null" {
+			data = append([]byte{}, hx(4)...)
+		}
+		var err error
+		var rep string
+		switch w[2] {
+		case "uuid":
+			var p, old *gocql.UUID
+			var oldv gocql.UUID
+			if w[3] != "nilptr" {
+				u := uuidOf(hx(3))
+				p, old, oldv = &u, &u, u
+			}
+			err = gocql.Unmarshal(info, data, &p)
+			switch {
+			case old != nil && *old != oldv:
+				rep = "OLD-POINTEE-WRITTEN"
+			case p == nil:
+				rep = "nilptr"
+			case p == old:
+				rep = "SAME-POINTER"
+			default:
+				rep = vh.Hex(p[:])
+			}
+		case "arr":
+			var p, old *[16]byte
+			var oldv [16]byte
+			if w[3] != "nilptr" {
+				a := [16]byte(uuidOf(hx(3)))
+				p, old, oldv = &a, &a, a
+			}
+			err = gocql.Unmarshal(info, data, &p)
+			switch {
+			case old != nil && *old != oldv:
+				rep = "OLD-POINTEE-WRITTEN"
+			case p == nil:
+				rep = "nilptr"
+			case p == old:
+				rep = "SAME-POINTER"
+			default:
+				rep = vh.Hex(p[:])
+			}
+		case "bytes":
+			var p, old *[]byte
+			var oldv string
+			if w[3] != "nilptr" {
+				var b []byte
+				if w[3] != "nil" {
+					b = hx(3)
+				}
+				p, old, oldv = &b, &b, string(b)
+			}
+			err = gocql.Unmarshal(info, data, &p)
+			switch {
+			case old != nil && string(*old) != oldv:
+				rep = "OLD-POINTEE-WRITTEN"
+			case p == nil:
+				rep = "nilptr"
+			case p == old:
+				rep = "SAME-POINTER"
+			case *p == nil:
+				rep = "nil"
+			default:
+				rep = vh.Hex(*p)
+				if len(data) > 0 && len(*p) > 0 && err == nil { // the destination must own its bytes
+					data[0] ^= 0xff
+					if vh.Hex(*p) != rep {
+						rep = "ALIASES-INPUT:" + rep
+					}
+					data[0] ^= 0xff
+				}
+			}
+		case "str":
+			var p, old *string
+			var oldv string
+			if w[3] != "nilptr" {
+				s := string(hx(3))
+				p, old, oldv = &s, &s, s
+			}
+			err = gocql.Unmarshal(info, data, &p)
+			switch {
+			case old != nil && *old != oldv:
+				rep = "OLD-POINTEE-WRITTEN"
+			case p == nil:
+				rep = "nilptr"
+			case p == old:
+				rep = "SAME-POINTER"
+			default:
+				rep = vh.Hex([]byte(*p))
+			}
+		default:
+			panic("bad-op: destination kind")
+		}
+		return stat(err) + " " + rep, true
+	case "ucqlnt":
+		typ := gocql.TypeUUID
+		if w[1] == "timeuuid" {
+			typ = gocql.TypeTimeUUID
+		} else if w[1] != "uuid" {
+			panic("bad-op: column type")
+		}
+		var data []byte
+		if w[3] != "null" {
+			data = append([]byte{}, hx(3)...)
+		}
+		var p, old *time.Time
+		var oldv time.Time
+		if w[2] != "nilptr" {
+			sn := strings.SplitN(w[2], ".", 2)
+			if len(sn) != 2 {
+				panic("bad-op: time")
+			}
+			ps, err1 := strconv.ParseInt(sn[0], 10, 64)
+			pn, err2 := strconv.ParseInt(sn[1], 10, 64)
+			if err1 != nil || err2 != nil {
+				panic("bad int")
+			}
+			t := time.Unix(ps, pn)
+			p, old, oldv = &t, &t, t
+		}
+		err := gocql.Unmarshal(gocql.NewNativeType(4, typ, ""), data, &p)
+		switch {
+		case old != nil && !old.Equal(oldv):
+			return stat(err) + " OLD-POINTEE-WRITTEN", true
+		case p == nil:
+			return stat(err) + " nilptr", true
+		case p == old:
+			return stat(err) + " SAME-POINTER", true
+		}
+		return fmt.Sprintf("%s %d.%d", stat(err), p.Unix(), p.Nanosecond()), true
+	case "mcqlp":
+		var p *gocql.UUID
+		if w[1] != "nil" {
+			u := uuidOf(hx(1))
+			p = &u
+		}
+		b, err := gocql.Marshal(gocql.NewNativeType(4, gocql.TypeUUID, ""), p)
+		if err != nil {
+			return "err", true
+		}
+		if b == nil {
+			return "ok null", true
+		}
+		return "ok " + vh.Hex(b), true
 	case "mcql":
 		var v interface{}
 		switch w[1] {
@@ -703,6 +860,78 @@ func runDecode(r *vh.Rng, out *vh.Out, mult int) {
 		op = fmt.Sprintf("mcql %s %s", kind, c)
 		a = exec(op)
 		out.Case(op, a, "mcql/"+kind+"/"+okerr(a), true)
+	}
+	// nullable destinations **T of gocql.Unmarshal (null / empty / 16 bytes / wrong lengths; pointer nil or pointing to
+	// a value that must not be touched), *UUID values of gocql.Marshal
+	for i := 0; i < 800*mult; i++ {
+		col := []string{"uuid", "timeuuid"}[r.Intn(2)]
+		kind := []string{"uuid", "arr", "bytes", "str"}[r.Intn(4)]
+		var data string
+		dcls := "16"
+		switch r.Intn(8) {
+		case 0, 1:
+			data, dcls = "null", "null"
+		case 2:
+			data, dcls = "-", "empty"
+		case 3:
+			n := []int{1, 4, 8, 15, 17, 32, 36}[r.Intn(7)]
+			data, dcls = vh.Hex(r.Bytes(n)), "wrong-length"
+		default:
+			data = vh.Hex(genUUIDBytes(r))
+		}
+		prev := "nilptr"
+		if r.Intn(3) != 0 {
+			switch kind {
+			case "uuid", "arr":
+				var want []byte
+				if dcls == "16" {
+					want, _ = vh.UnHex(data)
+				}
+				p, _ := genPrev(r, want, last)
+				prev = vh.Hex(p)
+			case "bytes":
+				prev = []string{"nil", "-", vh.Hex(r.Bytes(1 + r.Intn(40))), vh.Hex(r.Bytes(16))}[r.Intn(4)]
+			default:
+				s, _ := genText(r)
+				prev = []string{"-", vh.Hex([]byte(s))}[r.Intn(2)]
+			}
+		}
+		op := fmt.Sprintf("ucqln %s %s %s %s", col, kind, prev, data)
+		a := exec(op)
+		out.Case(op, a, "ucqln/"+col+"/"+kind+"/"+dcls+"/"+okerr(a), true)
+		if i%2 == 0 {
+			sec, ns, _ := genTime(r)
+			if r.Bool() {
+				sec = timeBase + int64(r.U64()%uint64(maxSec-timeBase))
+			}
+			tdata, tcls := "null", "null"
+			switch r.Intn(6) {
+			case 0:
+			case 1:
+				tdata, tcls = vh.Hex(r.Bytes(r.Intn(20))), "random-length"
+			case 2:
+				tdata, tcls = vh.Hex(genUUIDBytes(r)), "any-version"
+			default:
+				u := gocql.TimeUUIDWith(gocql.VerifGetTimestamp(time.Unix(sec, ns)), genClock(r), r.Bytes(6))
+				tdata, tcls = vh.Hex(u[:]), "v1"
+			}
+			tprev := "nilptr"
+			if r.Bool() {
+				psec, pns, _ := genTime(r)
+				tprev = fmt.Sprintf("%d.%d", psec, pns)
+			}
+			tcol := []string{"timeuuid", "timeuuid", "uuid"}[r.Intn(3)]
+			op = fmt.Sprintf("ucqlnt %s %s %s", tcol, tprev, tdata)
+			a = exec(op)
+			out.Case(op, a, "ucqlnt/"+tcol+"/"+tcls+"/"+okerr(a), true)
+			c := "nil"
+			if r.Intn(4) != 0 {
+				c = vh.Hex(genUUIDBytes(r))
+			}
+			op = "mcqlp " + c
+			a = exec(op)
+			out.Case(op, a, "mcqlp/"+okerr(a), true)
+		}
 	}
 	// the print/parse round trip through every printer/decoder pair on a dirty destination
 	for i := 0; i < 1000*mult; i++ {
